@@ -136,7 +136,88 @@ func (c *vXferConfig) opts() *xferOpts {
 	return o
 }
 
+// vC01ManyFiles: more files in one transfer than the process may hold open at once, in per-file
+// mode (no archive): descriptors in use must not grow with the file count.
+func vC01ManyFiles(rc *runCtx) {
+	tp := rc.tape
+	cfg := vDrawConfig(tp, false)
+	cfg.timeout = 20
+	cfg.bufSize = ""
+	cfg.trigVersion = ""
+	// per-file mode: either overwrite, or an older protocol, or plain files without -d
+	shape := tp.Draw("many.shape", 3)
+	switch shape {
+	case 0:
+		cfg.dirMode, cfg.overwrite = true, true
+	case 1:
+		cfg.dirMode, cfg.overwrite, cfg.protocol = true, false, 2+tp.Draw("many.proto", 2)
+	default:
+		cfg.dirMode = false
+	}
+	src := filepath.Join(rc.dir, "src")
+	dst := filepath.Join(rc.dir, "dst")
+	os.MkdirAll(dst, 0755)
+	n := 130 + tp.Draw("many.n", 120)
+	var paths []string
+	if cfg.dirMode {
+		top := filepath.Join(src, "many")
+		os.MkdirAll(top, 0755)
+		for i := 0; i < n; i++ {
+			data, _ := vGenContent(tp, tp.Draw("many.size", 700))
+			vWriteFile(filepath.Join(top, fmt.Sprintf("f%03d.dat", i)), data)
+		}
+		paths = []string{top}
+	} else {
+		os.MkdirAll(src, 0755)
+		for i := 0; i < n; i++ {
+			data, _ := vGenContent(tp, tp.Draw("many.size", 700))
+			p := filepath.Join(src, fmt.Sprintf("f%03d.dat", i))
+			vWriteFile(p, data)
+			paths = append(paths, p)
+		}
+	}
+	o := cfg.opts()
+	o.srcPaths = paths
+	o.dstDir = dst
+	o.profile = vDrawProfile(tp, cfg.timeout)
+	o.profile.bytesPerMs, o.profile.latPm = 0, 0
+	rc.res.ClassKey = fmt.Sprintf("many shape%d %s", shape, cfg.key())
+	rc.res.Scenario["config"] = cfg.key()
+	rc.res.Scenario["flags"] = strings.Join(o.flags, " ")
+	rc.res.Scenario["files"] = n
+	fd0 := vOpenFDs()
+	maxFD := fd0
+	before := vSnapshot(dst)
+	x := newXferWorld(rc, o)
+	x.start()
+	rc.w.Run(func() bool {
+		if f := vOpenFDs(); f > maxFD {
+			maxFD = f
+		}
+		return x.finished()
+	})
+	rep := x.report()
+	rc.res.Scenario["fd_baseline"] = fd0
+	rc.res.Scenario["fd_peak"] = maxFD
+	vCheckFidelity(rc, x, rep, before, true)
+	if rc.res.Class == "violation" && strings.Contains(rc.res.Msg, "too many open files") {
+		rc.res.Kind = "fd-exhaustion"
+		rc.res.Sig = "C01:too-many-open-files"
+		return
+	}
+	if rc.res.Class != "ok" {
+		return
+	}
+	if grow := maxFD - fd0; grow > 40 && grow > n/3 {
+		rc.violate("fd-growth", "C01:fd-growth", "open descriptors grew by %d (baseline %d, peak %d) while transferring %d files one by one (%s)", grow, fd0, maxFD, n, rc.res.Scenario["flags"])
+	}
+}
+
 func vScenarioC01(rc *runCtx) {
+	if rc.param("many", "0") == "1" {
+		vC01ManyFiles(rc)
+		return
+	}
 	tp := rc.tape
 	cfg := vDrawConfig(tp, rc.param("full", "1") == "1")
 	maxSize := 400000
